@@ -6,24 +6,20 @@
    frames) running the compiled skeleton produces exactly the event log and the outcome of the
    specification SkelSem, in which a finally block runs once after body and catch whatever their
    outcome, a pending break / continue / return / error survives a finally block that completes
-   normally, and a caught error is not raised again.  The theorem is about the declarative
+   normally, and a caught error is not raised again.  The simulation is proved for the declarative
    compiler [dcomp] (every jump target computed from the sizes of the parts); the emit-and-patch
-   compiler [compile], written after compiler_nodes.go, is compared with it on every skeleton the
-   check enumerates, and the machine model with the real VM.
+   compiler [compile], written after compiler_nodes.go, is proved to emit the same code
+   (C03_compilers_agree), so the statement holds for it as well (C03_finally_once_patching).  The
+   machine model and the compiler model are compared with the real VM on every skeleton the check
+   enumerates.
    Skeletons abstract values to atoms (DESIGN.md, C03): the theorem is about control flow. *)
 From Coq Require Import List ZArith Bool.
-From Ugo Require Import Skel.Skel Skel.SkelProofs Skel.SkelDecl Skel.SkelSim.
+From Ugo Require Import Skel.Skel Skel.SkelProofs Skel.SkelDecl Skel.SkelSim Skel.SkelDeclEq.
 Import ListNotations.
 Local Open Scope Z_scope.
 
 Definition vm_outcome (r : option vmres) : option fsem :=
   match r with Some (Done l o) => Some (l, o) | _ => None end.
-
-(* the same statement for the emit-and-patch compiler: follows from C03_finally_once wherever
-   both compilers emit the same code (checked on every run, see C03_compilers_agree_example) *)
-Definition C03_finally_once_patching_full : Prop :=
-  forall p, wf_program p = true -> p <> [] ->
-  exists fuel, vm_outcome (run_program fuel p) = sem_program p.
 
 (* well-formed: break / continue only inside loops (the compiler rejects anything else), calls only
    to functions defined earlier *)
@@ -37,6 +33,18 @@ Theorem C03_finally_once : forall p, wf_program p = true -> p <> [] ->
     end.
 Proof. exact simulation. Qed.
 Print Assumptions C03_finally_once.
+
+(* the emit-and-patch compiler (emit, remember the position, patch the operand later: the structure
+   of compileTryStmt / compileBranchStmt / compileForStmt) produces exactly the declarative code *)
+Theorem C03_compilers_agree : forall p, wf_program p = true -> compile_program p = Some (dcompile_program p).
+Proof. exact compile_program_eq. Qed.
+Print Assumptions C03_compilers_agree.
+
+(* hence the same statement for the emit-and-patch compiler and its runner *)
+Theorem C03_finally_once_patching : forall p, wf_program p = true -> p <> [] ->
+  exists fuel, match run_program fuel p with Some (Done l o) => sem_program p = Some (l, o) | _ => False end.
+Proof. exact simulation_patching. Qed.
+Print Assumptions C03_finally_once_patching.
 
 Theorem C03_spec_finally_once :
   forall table body catch fb,
